@@ -110,6 +110,12 @@ def run(ctx):
     except vlib.Broken as e:
         guards.failed.append(str(e)[:1500])
 
+    if not ctx.violations:
+        # "process restarts between updates ... whichever state implementation": a database upgraded by the head-state
+        # migration leaves persisted storage roots zero until first touch (HeadState.tla, G05); the state root of every
+        # post-upgrade block is compared with the reference commitment on three real nodes
+        ctx.include("G05", accept=lambda k: "wrong-state-root" in k or k.startswith("crash:"),
+                    why="state roots of blocks applied on a database upgraded by the head-state migration (lazy storage-root backfill)")
     ctx.assumptions += [
         "core/crypto Pedersen/Poseidon and core/felt are trusted (known-answer tested upstream); hashes are injective terms in the specifications",
         "callers commit a trie before dropping it (deprecatedstate closers, state.Commit); Reopen is only taken from a committed trie",
